@@ -87,6 +87,7 @@ type CallSpec struct {
 	Conn    int                 `json:"conn,omitempty"`
 	ReqMD   map[string][]string `json:"reqmd,omitempty"`
 	Timeout time.Duration       `json:"timeout,omitempty"`
+	AliasMD bool                `json:"alias_md,omitempty"` // the handler reuses one metadata object for all its SetHeader (and one for all its SetTrailer) calls, refilling it in between
 	BothWays bool               `json:"both_ways,omitempty"` // C11: abandoned with traffic pending in both directions
 	PreDone int                 `json:"predone,omitempty"` // the caller's context is already finished when the call starts: 1 cancelled, 2 deadline passed
 	Req     []byte              `json:"-"`
@@ -129,6 +130,7 @@ type CallRec struct {
 	CTrailerSet bool
 	burst     chan struct{} // closed when the handler has sent its burst (op 'n') or returned
 	burstOnce sync.Once
+	hdrObj, trlObj metadata.MD // reused by the handler when Spec.AliasMD
 	COverrun  bool // the caller received far more messages than the handler sends: the receive loop was cut
 	CTrailerAgain []metadata.MD // further Trailer() reads (same stream, later)
 	CHeaderAgain  []metadata.MD
@@ -425,10 +427,25 @@ func (s *Sim) hop(r *CallRec, ctx context.Context, ss grpc.ServerStream, op Op) 
 		}
 	case 'H':
 		e.Pt("h.sethdr")
+		md := mdOf(op.MD)
+		if r.Spec.AliasMD {
+			// what was set is what the call was given at the time, not what the
+			// handler's object holds later
+			if r.hdrObj == nil {
+				r.hdrObj = metadata.MD{}
+			}
+			for k := range r.hdrObj {
+				delete(r.hdrObj, k)
+			}
+			for k, v := range md {
+				r.hdrObj[k] = v
+			}
+			md = r.hdrObj
+		}
 		if ss != nil {
-			ss.SetHeader(mdOf(op.MD))
+			ss.SetHeader(md)
 		} else {
-			grpc.SetHeader(ctx, mdOf(op.MD))
+			grpc.SetHeader(ctx, md)
 		}
 	case 'S':
 		e.Pt("h.sendhdr")
@@ -440,10 +457,23 @@ func (s *Sim) hop(r *CallRec, ctx context.Context, ss grpc.ServerStream, op Op) 
 		e.Log("h.sendhdr", "", id, "")
 	case 'T':
 		e.Pt("h.settrl")
+		md := mdOf(op.MD)
+		if r.Spec.AliasMD {
+			if r.trlObj == nil {
+				r.trlObj = metadata.MD{}
+			}
+			for k := range r.trlObj {
+				delete(r.trlObj, k)
+			}
+			for k, v := range md {
+				r.trlObj[k] = v
+			}
+			md = r.trlObj
+		}
 		if ss != nil {
-			ss.SetTrailer(mdOf(op.MD))
+			ss.SetTrailer(md)
 		} else {
-			grpc.SetTrailer(ctx, mdOf(op.MD))
+			grpc.SetTrailer(ctx, md)
 		}
 	case 'w':
 		e.Pt("h.await")
